@@ -34,3 +34,9 @@ Definition obs_unroll N sh space timebins cs shots q :=
   | Some u => (true, map obs_ucmd u)
   | None => (false, [])
   end.
+
+(* get_tdm_options after a history *)
+Definition obs_options N sh timebins cs (h : list call) (space_kw : bool) (shots : option nat) (crop : bool) (cropv : nat) :=
+  let st := run_calls N sh timebins cs (init_state N) h in
+  let r := tdm_options N sh timebins cs space_kw shots crop cropv st in
+  (obs_state (fst (fst (fst r))), (obs_opt (0, 0) (snd (fst (fst r))), snd (fst r), snd r)).
